@@ -227,6 +227,35 @@ theorem union_not_exactAt_inside :
   norm_num at this
   linarith
 
+
+/-! ### outside an intersection the field is only a bound -/
+
+/-- two balls of radius 5 centred `(∓3,0,0)` (their intersection is a lens with tip `(0,4,0)`); at `p = (0, 35/4, 0)` the
+    intersection field is `17/4` but every zero-set point is at distance `≥ 19/4`: outside an intersection the field is
+    a lower bound of the distance, not the distance -/
+theorem intersect_not_exact_outside :
+    ∃ u : Field, SdfOps.Intersect [Sphere (⟨-3, 0, 0⟩ : P3) 5, Sphere ⟨3, 0, 0⟩ 5] = some u ∧
+      u ⟨0, 35/4, 0⟩ = 17/4 ∧ ∀ s : P3, u s = 0 → ((19 : ℝ) / 4) ^ 2 ≤ (⟨0, 35/4, 0⟩ : P3).DistanceSquared s := by
+  refine ⟨_, rfl, ?_, ?_⟩
+  · show max (Sphere (⟨-3, 0, 0⟩ : P3) 5 ⟨0, 35/4, 0⟩) (Sphere (⟨3, 0, 0⟩ : P3) 5 ⟨0, 35/4, 0⟩) = 17/4
+    simp only [sphere_eq, V3.Distance, V3.DistanceSquared, RS.sqrt_eq]
+    rw [show ((-3 : ℝ) - 0) * (-3 - 0) + (0 - 35/4) * (0 - 35/4) + (0 - 0) * (0 - 0) = (37/4) ^ 2 by norm_num,
+      show ((3 : ℝ) - 0) * (3 - 0) + (0 - 35/4) * (0 - 35/4) + (0 - 0) * (0 - 0) = (37/4) ^ 2 by norm_num,
+      Real.sqrt_sq (by norm_num)]
+    norm_num
+  · intro s hs
+    have hs' : max (Sphere (⟨-3, 0, 0⟩ : P3) 5 s) (Sphere (⟨3, 0, 0⟩ : P3) 5 s) = 0 := hs
+    have h1 : Sphere (⟨-3, 0, 0⟩ : P3) 5 s ≤ 0 := le_of_le_of_eq (le_max_left _ _) hs'
+    have h2 : Sphere (⟨3, 0, 0⟩ : P3) 5 s ≤ 0 := le_of_le_of_eq (le_max_right _ _) hs'
+    rw [sphere_eq, distance_eq_sqrt] at h1 h2
+    have k1 : s.DistanceSquared ⟨-3, 0, 0⟩ ≤ 5 ^ 2 :=
+      (Real.sqrt_le_iff.mp (by linarith : Real.sqrt (s.DistanceSquared ⟨-3, 0, 0⟩) ≤ 5)).2
+    have k2 : s.DistanceSquared ⟨3, 0, 0⟩ ≤ 5 ^ 2 :=
+      (Real.sqrt_le_iff.mp (by linarith : Real.sqrt (s.DistanceSquared ⟨3, 0, 0⟩) ≤ 5)).2
+    simp only [V3.DistanceSquared] at k1 k2 ⊢
+    have hy : s.y ≤ 4 := by nlinarith [sq_nonneg s.x, sq_nonneg s.z, sq_nonneg (s.y + 4)]
+    nlinarith [sq_nonneg s.x, sq_nonneg s.z, sq_nonneg (s.y - 4)]
+
 /-! ### non-vacuity -/
 
 example : ExactOutside (Sphere (⟨0, 0, 0⟩ : P3) 1) := sphere_exactOutside _ _ (by norm_num)
